@@ -98,6 +98,16 @@ def mk_eval(facts):
     return ev
 
 
+def union_is_false(test, flag, ev, env):
+    """does the branch need the flag? (its test is false when the flag is False)"""
+    e2 = dict(env)
+    e2[flag] = False
+    try:
+        return not ev.truth(ev.ev(test, e2), test)
+    except Exception:
+        return False
+
+
 def check(ctx):
     m = ctx.model
     fn = m.func(FN)
@@ -128,53 +138,64 @@ def check(ctx):
            required="raise InterchangerError(box0, box1)", mod=M, node=orelse[-1] if orelse else if_node, sig="else-raises")
 
     # ---- R05.1 predicates, R05.2 bodies -------------------------------------
+    FREE = ["off0", "off1"]
     spec = {}
-    for case in "RL":
-        d, facts, exp = generic_instance("U")
-        spec[case] = pred.atom_ge(exp["off0"] - exp["off1"] - exp["d1"].length) if case == "R" \
-            else pred.atom_ge(exp["off1"] - exp["off0"] - exp["c0"].length)
+    d, facts, exp = generic_instance("U")
+    spec["R"] = pred.atom_ge(exp["off0"] - exp["off1"] - exp["d1"].length)
+    spec["L"] = pred.atom_ge(exp["off1"] - exp["off0"] - exp["c0"].length)
+    uf = Facts(free=FREE)
     handled = {"R": [], "L": []}
-    union_nf = pred.FALSE
+    union_nf = {True: pred.FALSE, False: pred.FALSE}
+    first_cfg = {}
     for bno, (test, body) in enumerate(chain):
-        needs_flag, cond = split_flag(test, flag)
         cname = "%s:branch%d" % (FN, bno + 1)
-        # (a) normal form on the unconstrained pair
-        d, facts, exp = generic_instance("U")
-        ev = mk_eval(Facts([exp["n"] - exp["i"] - 2], free=["off0", "off1"]))
-        env = {self_: d, i_: exp["i"], j_: exp["i"] + 1, flag: needs_flag}
-        try:
-            r = ev.run(prologue, env)
-            ctx.need(r is None, "prologue of interchange returns on the adjacent generic instance: %r" % (r,))
-            f = pred.nf(cond, lambda n_: ev.ev(n_, env))
-        except (Unsupported, Undecided, Unlocatable, TypeError) as e:
-            raise AnalysisError("cannot normalise branch test `%s`: %s" % (ast.unparse(cond), e))
-        which = [c for c in "RL" if pred.equivalent(f, spec[c])]
-        ctx.ob("R05.1", cname + ":test", len(which) == 1, found=pred.show(f),
-               required="%s  or  %s" % (pred.show(spec["R"]), pred.show(spec["L"])), mod=M, node=test,
-               sig="test-nf", note="normal form of `%s` on an unconstrained adjacent pair" % ast.unparse(cond))
-        if not needs_flag:
-            union_nf = pred._or(union_nf, f)
+        # (a) normal form on the unconstrained pair, for each value of the preference flag
+        cfgs, shown = set(), {}
+        for fv in (True, False):
+            d, facts, exp = generic_instance("U")
+            ev = mk_eval(Facts([exp["n"] - exp["i"] - 2], free=FREE))
+            env = {self_: d, i_: exp["i"], j_: exp["i"] + 1, flag: fv}
+            try:
+                r = ev.run(prologue, env)
+                ctx.need(r is None, "prologue of interchange returns on the adjacent generic instance: %r" % (r,))
+                f = pred.nf(test, lambda n_: ev.ev(n_, env))
+            except (Unsupported, Undecided, Unlocatable, TypeError) as e:
+                raise AnalysisError("cannot normalise branch test `%s`: %s" % (ast.unparse(test), e))
+            shown[fv] = pred.show(f)
+            union_nf[fv] = pred._or(union_nf[fv], f)
+            if f == pred.FALSE:
+                continue
+            which = [c for c in "RL" if pred.equivalent(f, spec[c], uf)]
+            cfgs.add(which[0] if len(which) == 1 else "?")
+            if fv not in first_cfg:
+                first_cfg[fv] = which[0] if len(which) == 1 else "?"
+        ctx.ob("R05.1", cname + ":test", len(cfgs) == 1 and "?" not in cfgs, found="left=True: %s ; left=False: %s" % (shown[True], shown[False]),
+               required="%s  or  %s (possibly only for one value of `%s`)" % (pred.show(spec["R"]), pred.show(spec["L"]), flag), mod=M, node=test,
+               sig="test-nf", note="normal form of `%s` on an unconstrained adjacent pair" % ast.unparse(test))
         # (b) valid on exactly one generic configuration, then (R05.2) run the body there
         chosen = []
         for case in "RL":
-            d, facts, exp = generic_instance(case)
-            ev = mk_eval(facts)
-            env = {self_: d, i_: exp["i"], j_: exp["i"] + 1, flag: needs_flag}
-            try:
-                r = ev.run(prologue, env)
-                ctx.need(r is None, "prologue of interchange returns on the adjacent generic instance")
-                if ev.truth(ev.ev(cond, env), cond):
-                    chosen.append((case, ev, env, exp, d))
-            except Undecided:
-                pass
-            except (Unsupported, Unlocatable) as e:
-                raise AnalysisError("prologue/test of interchange outside the recognised idioms: %s" % e)
-        ok1 = len(chosen) == 1 and (not which or which == [chosen[0][0]])
+            for fv in (False, True):
+                d, facts, exp = generic_instance(case)
+                ev = mk_eval(facts)
+                env = {self_: d, i_: exp["i"], j_: exp["i"] + 1, flag: fv}
+                try:
+                    r = ev.run(prologue, env)
+                    ctx.need(r is None, "prologue of interchange returns on the adjacent generic instance")
+                    if ev.truth(ev.ev(test, env), test):
+                        chosen.append((case, ev, env, exp, d, fv))
+                        break
+                except Undecided:
+                    pass
+                except (Unsupported, Unlocatable) as e:
+                    raise AnalysisError("prologue/test of interchange outside the recognised idioms: %s" % e)
+        ok1 = len(chosen) == 1 and (cfgs == {chosen[0][0]} or not cfgs or "?" in cfgs)
         ctx.ob("R05.1", cname + ":selects", ok1, found="valid on configurations %s" % [c[0] for c in chosen],
                required="valid on exactly one of R (upper box right of lower), L (left of)", mod=M, node=test, sig="selects")
         if len(chosen) != 1:
             continue
-        case, ev, env, exp, d = chosen[0]
+        case, ev, env, exp, d, fv = chosen[0]
+        needs_flag = union_is_false(test, flag, ev, env)
         handled[case].append((bno, needs_flag))
         probs = []
         try:
@@ -228,16 +249,17 @@ def check(ctx):
             ctx.ob("R05.2", cname, True, found="%r , %r" % (got1, got0), required="exchanged pair", mod=M, node=test,
                    note="%s-exchange; %d composition side conditions proved" % (case, nsc))
     want_union = pred._or(spec["R"], spec["L"])
-    ctx.ob("R05.1", FN + ":refused-exactly-when-wired", pred.equivalent(union_nf, want_union), found=pred.show(union_nf),
-           required=pred.show(want_union), mod=M, node=if_node, sig="union",
-           note="disjunction of the tests that do not depend on the `%s` preference" % flag)
+    for fv in (True, False):
+        ctx.ob("R05.1", "%s:refused-exactly-when-wired[%s=%s]" % (FN, flag, fv), pred.equivalent(union_nf[fv], want_union, uf), found=pred.show(union_nf[fv]),
+               required=pred.show(want_union), mod=M, node=if_node, sig="union-%s" % fv,
+               note="disjunction of the exchange tests with `%s` = %s" % (flag, fv))
     for case in "RL":
-        ctx.ob("R05.1", "%s:covers-%s" % (FN, case), any(not nf_ for _, nf_ in handled[case]),
-               found=handled[case], required="an unconditional branch for configuration " + case, mod=M, node=if_node,
+        ctx.ob("R05.1", "%s:covers-%s" % (FN, case), bool(handled[case]),
+               found=handled[case], required="a branch exchanging configuration " + case, mod=M, node=if_node,
                sig="covers-" + case)
-    first_flag, _ = split_flag(chain[0][0], flag)
-    ctx.ob("R05.1", FN + ":preference-first", first_flag and bool(handled["L"]) and handled["L"][0] == (0, True),
-           found="first test: %s" % ast.unparse(chain[0][0]), required="`%s and <box0 left of box1>` tested first" % flag,
+    ctx.first_cfg = first_cfg
+    ctx.ob("R05.1", FN + ":preference-first", first_cfg == {True: "L", False: "R"},
+           found="first exchange tried: %s" % first_cfg, required="the left exchange is tried first iff `%s`; the right exchange first by default" % flag,
            mod=M, node=chain[0][0], sig="preference")
 
     # ---- R05.3 guards -------------------------------------------------------
@@ -259,7 +281,8 @@ def check(ctx):
             and isinstance(s.value.value, ast.Name) and s.value.value.id == self_]
     calls = [c for c in ast.walk(fn) if isinstance(c, ast.Call) and isinstance(c.func, ast.Attribute) and c.func.attr == "interchange"]
     ctx.need(len(subs) >= 4, "expected indexing of self.offsets/layers/boxes in interchange")
-    for s in subs + calls:
+    rets = [r_ for r_ in ast.walk(fn) if isinstance(r_, ast.Return)]
+    for s in subs + calls + rets:
         known = pred.TRUE
         for st, lab, how in g.raising_guards_before(s):
             if "IndexError" not in how:
@@ -269,7 +292,7 @@ def check(ctx):
             except Exception:
                 continue
             known = pred._and(known, pred.negate(f) if lab == "T" else f)
-        ctx.ob("R05.3", "%s:%s" % (FN, ast.unparse(s)[:40]), pred.entails(known, in_range), found=pred.show(known),
+        ctx.ob("R05.3", "%s:%s" % (FN, ast.unparse(s)[:40]), pred.entails(known, in_range, Facts(free=["i", "j", "n"])), found=pred.show(known),
                required=pred.show(in_range) + " established by a dominating `raise IndexError` guard", mod=M, node=s,
                sig="index-guard")
     eqret = [st for st in fn.body if isinstance(st, ast.If) and len(st.body) == 1 and isinstance(st.body[0], ast.Return)
@@ -349,9 +372,9 @@ def check(ctx):
     ctx.ob("R05.4", FN + ":adjacent-downward", ok, found=[ast.unparse(s) for s in swap] or "no `if j < i: i, j = j, i`",
            required="a downward adjacent move is the exchange of the same pair (i, j swapped)", mod=M,
            node=swap[0] if swap else fn, sig="adjacent-swap")
-    ctx.floor("R05.1", 9)
+    ctx.floor("R05.1", 11)
     ctx.floor("R05.2", 3)
-    ctx.floor("R05.3", 6)
+    ctx.floor("R05.3", 10)
     ctx.floor("R05.4", 3)
     ctx.not_decided.append("equality of denotation under monoidal functors (interchange law, cited)")
 
